@@ -1,6 +1,7 @@
 package main
 
 import (
+	"os"
 	"fmt"
 	"go/token"
 	"go/types"
@@ -417,7 +418,9 @@ func (s *State) assumeNotFresh(t Term, ty types.Type) {
 		s.assume(Le(App("i-val", SInt, t), bound))
 	case *types.Struct:
 		// pointer-like components of a symbolic struct value are not fresh either
-		s.assumeNotFreshStruct(t, ty, 0)
+		if os.Getenv("GOVC_NO_NFS") == "" {
+			s.assumeNotFreshStruct(t, ty, 0)
+		}
 	}
 }
 
